@@ -16,7 +16,8 @@ CHECKS = {
              "last write, its directory entry persisted by a directory fsync, and its ancestors persisted. The durable "
              "image after every flip / root fsync (quick) or every fsync, rename, unlink (thorough) is materialised from "
              "the traced payloads and opened by the independent reader and the library: a surviving pointer must lead to "
-             "fully readable snapshots.",
+             "fully readable snapshots. Six further traced lives inject an fsync failure (nothing flushed) on each file kind: "
+             "the faulted append must not be acknowledged with a pointer to unflushed content.",
         note="Conservative model over a real trace on tmpfs; real disks / NFS semantics are out of reach. The commit's own "
              "durability after acknowledgement is measured, not judged.",
     ),
@@ -55,7 +56,9 @@ CHECKS = {
              "outside dir, outside file and sibling. A sys.addaudithook monitor records every open/remove/rename/"
              "listdir/mkdir... whose canonical target is outside the canonical root (or a decoy); the sentinel tree is "
              "fingerprinted around every call; strings an independent classifier marks escaping must raise. Tampered "
-             "manifest entries / manifest paths / manifest_list / marker payloads / listings are scanned and collected.",
+             "manifest entries / manifest paths / manifest_list / marker payloads / listings are scanned and collected; a "
+             "directory a long-lived handle already used is swapped for a symlink to the outside; on the S3 backend every "
+             "request key must stay under the table prefix for the same grammar.",
         note="Opens inside pyarrow's C++ are invisible to audit hooks (the directory is chosen by monitored Python code).",
     ),
     "C20": dict(
@@ -101,7 +104,8 @@ CHECKS = {
              "failing at the pointer write) run under the cooperative scheduler with a gate before every storage "
              "operation; all schedules with <=1 preemption for every kind and <=2 for three kinds (quick) / all (thorough, "
              "+k=3 for two). When every actor is done each file of every snapshot in the final metadata must exist and "
-             "parse and acked rows must be readable; the deletion log names the culprit.",
+             "parse and acked rows must be readable; the deletion log names the culprit; an online monitor flags the collector "
+             "deleting a file of a still-active transaction (incl. a transaction forced to retry by a second one).",
         note="Files written after the collector's first storage call stay fresh (proviso: grace exceeds the run).",
     ),
     "C08": dict(
@@ -113,7 +117,9 @@ CHECKS = {
              "schedules for every cell, <=2 for the key cells (quick, budgeted for the 3-actor cell) / <=2 everywhere and "
              "<=3 key cells (thorough); 3 committers under PCT/random. At every successful conditional PUT of the "
              "pointer the replaced content must name the version that actor fetched for validation; an attempt whose "
-             "ownership read showed another owner must not flip; C01's per-flip delta model applies.",
+             "ownership read showed another owner must not flip; an actor whose lock object was overwritten by another writer "
+             "before its last pre-commit request must not be acknowledged (thief cells: a contender that takes the lock "
+             "over and keeps it); C01's per-flip delta model applies.",
         note="S3 = strongly consistent double; real providers' quirks are out of reach offline.",
     ),
     "C01": dict(
@@ -137,7 +143,9 @@ CHECKS = {
              "<=1-preemption schedules for every pair (quick; <=2 in thorough and for key pairs), 2 readers x 1-3 writers "
              "under PCT/random. Ground truth rows of each version are taken by the independent reader right after each "
              "pointer flip; every read must equal a version current at some instant of its window and never move "
-             "backwards on a handle; a read that raises with only writers active is a violation.",
+             "backwards on a handle; a read that raises with only writers active is a violation; every published version must equal "
+             "the previous one plus one WHOLE transaction (atomic visibility), and a reader sharing the handle of a writer whose "
+             "commit failed is scheduled against a committing second handle.",
         note="Pool threads of scan(parallel=n) run unscheduled within their parent's step.",
     ),
     "C10": dict(
@@ -147,7 +155,9 @@ CHECKS = {
              "files in both mtime orders) the pointer file is replaced by each element of a byte-level grammar; then "
              "load / create_table(other schema) / append / collect run and the table is reopened. Identity, schema, "
              "snapshot list, rows of every retained snapshot must equal the committed state (+ the append), and no "
-             "never-committed snapshot may surface. Known design-level defects are reported as KNOWN-FINDING lines.",
+             "never-committed snapshot may surface; a commit may never publish a version number below one already on storage; "
+             "listing failures during open/create must not re-initialise; a reduced grammar also runs on the CAS-S3 double. "
+             "Known design-level defects are reported as KNOWN-FINDING lines.",
         note="Committed state = last pointer target observed by the harness, read by the independent reader.",
     ),
     "C11": dict(
